@@ -229,6 +229,8 @@ impl<'p> Interp<'p> {
             "in_i16" => conv::int_v(IntTy::I16, w),
             "in_i32" => conv::int_v(IntTy::I32, w),
             "in_i64" => conv::int_v(IntTy::I64, w),
+            "in_cap_i64" => V::Int(IntTy::I64, ((conv::int_of(IntTy::I64, w) as i64) ^ (crate::host::cap_mix() as i64)) as i128),
+            "in_cap_u32" => V::Int(IntTy::U32, ((conv::int_of(IntTy::U32, w) as u32) ^ (crate::host::cap_mix() as u32)) as i128),
             "in_f32" => V::F32(conv::f32_of(w)),
             "in_f64" => V::F64(conv::f64_of(w)),
             "in_bool" => V::Bool(conv::bool_of(w)),
